@@ -9,6 +9,7 @@ import TpmModel.Pinned.Prims
 import TpmModel.RcSpec
 import TpmModel.Front
 import TpmModel.Cache
+import TpmModel.Print
 /-! Line-protocol driver: one operation per input line, canonical observation lines + `END` per operation. -/
 
 def findType (n : String) : Option Ty := (Generated.typeByName.find? (·.1 == n)).map (·.2)
@@ -54,6 +55,25 @@ def unmarshalLines (x : List Byte) (r : Run) : List String :=
       else go rest (k+1) off
   [s!"U {if u.isEmpty then "-" else hexOfBytes u}", s!"S {go chunks 0 0}"]
 
+def printEnv : PrintEnv :=
+  { prim := findPrim, rc := rcFmt, rcRows := rcRows Generated.rcTables }
+
+/-- the event stream a consumer of `Binary.marshal` sees: in warn mode a final depleted/superfluous problem is
+itself a `WarningEvent` -/
+def streamOf (abort : Bool) (r : Run) : List Event :=
+  r.events.map (·.2) ++ (if abort then [] else match r.outcome with
+    | .depleted => [.warning .depleted]
+    | .superfluous _ _ => [.warning .depleted]
+    | _ => [])
+
+def rowStr : Row → String
+  | .field t d n h v => s!"P {if t.isEmpty then "-" else t} {d} {n} {if h.isEmpty then "-" else hexOfBytes h} {v}"
+  | .info k => s!"P! {k}"
+
+def erowStr : ERow → String
+  | .field t p v => s!"E {t} {if p.isEmpty then "." else p} {v}"
+  | .info k => s!"E! {k}"
+
 def handle (line : String) : List String :=
   match line.splitOn " " with
   | ["DEC", mode, ty, cc, enc, hex] =>
@@ -67,6 +87,23 @@ def handle (line : String) : List String :=
       let r := marshalRun (mode == "S") Generated.msgTables top bs
       let ls := r.lines (mode == "S")
       ls.dropLast ++ unmarshalLines bs r ++ [ls.getLast!]
+    | none, _ => ["X unknown-type " ++ ty]
+    | _, none => ["X bad-hex"]
+  | ["PRINT", mode, ty, cc, enc, hex] =>
+    match parseTop ty cc enc, bytesOfHex hex with
+    | some top, some bs =>
+      let r := marshalRun (mode == "S") Generated.msgTables top bs
+      match r.outcome with
+      | .crash c _ => [s!"P decode-crash {c}"]
+      | _ =>
+      let evs := streamOf (mode == "S") r
+      let pr := match prettyRows printEnv evs with
+        | .ok rows => rows.map rowStr
+        | .error e => [s!"P crash {e}"]
+      let u := evs.flatMap fun e => match e with
+        | .marshal m => (match eventBytes printEnv m with | .ok b => b | .error _ => [])
+        | .warning _ => []
+      pr ++ [s!"U {if u.isEmpty then "-" else hexOfBytes u} {evs.length}"] ++ (eventsRows printEnv evs 0).map erowStr
     | none, _ => ["X unknown-type " ++ ty]
     | _, none => ["X bad-hex"]
   | ["SPECP", ty, sel, vs] =>
